@@ -1,5 +1,6 @@
 """C11 — metadata filters select exactly the matching documents."""
 import re
+import vlib.mir as _M
 
 from vlib.mo import *
 from vlib.runner import KH, run_kani_group, run_mir_obligations
@@ -240,6 +241,63 @@ def symmetry(F):
     return out
 
 
+def composition(F):
+    """compile_filter_to_bitmap: the boolean connectives are compiled to the matching set operations — on the AndFilter arm
+    sub-results are only intersected (&=), on the OrFilter / InMatch arms only united (|=), on the NotFilter arm the
+    sub-result is subtracted from a clone of the alive set and nothing else; an empty And is the alive set, an empty Or the
+    empty set.  The arms of the variant switch are identified by the downcast their first block performs."""
+    f = [n for n in F if n.endswith("compile_filter_to_bitmap") and "{closure" not in n]
+    if len(f) != 1:
+        return [Result("inconclusive", "compile_filter_to_bitmap not found (%d candidates)" % len(f))]
+    f = f[0]
+    fc = FnCheck(F, f)
+    fn = fc.fn
+    VSW = r"^discr\(.* as Some\)\.0: proto::metadata_filter::FilterType\)\)$"
+    sw = [b for b in fn.blocks.values() if not b.cleanup and b.kind == "switch" and re.search(VSW, origin(fn, b.switch_local))]
+    if len(sw) != 1:
+        return [Result("inconclusive", "variant switch of compile_filter_to_bitmap not found")]
+    arm_of = {}
+    for lab, t in sw[0].succs:
+        for st in fn.blocks[t].stmts:
+            m = re.search(r"FilterType\) as (\w+)\)\.0", st)
+            if m:
+                arm_of[m.group(1)] = lab
+    need = ("AndFilter", "OrFilter", "NotFilter", "InMatch")
+    if any(v not in arm_of for v in need):
+        return [Result("inconclusive", "arms of the FilterType switch not identified: %s" % arm_of)]
+    A = lambda v: Arm(VSW, {arm_of[v]}, name="filter is " + v)
+    AND = call(r"= <RoaringTreemap as BitAndAssign>::bitand_assign\(", name="acc &= sub")
+    OR = call(r"= <RoaringTreemap as BitOrAssign>::bitor_assign\(", name="acc |= sub")
+    SUB = call(r"= <RoaringTreemap as SubAssign<&RoaringTreemap>>::sub_assign\(", name="out -= sub")
+    XOR = call(r"= <RoaringTreemap as BitXorAssign>::bitxor_assign\(", name="^=")
+    REC = call(r"= (hnsw_backend::)?compile_filter_to_bitmap\(", name="compile_filter_to_bitmap(sub)")
+    ALIVE = Ev(r"= <RoaringTreemap as Clone>::clone\(", kind="call", also=lambda fn_, b, _t: bool(re.search(r"MetadataInvertedIndex\)\}\)\.\d+: (roaring::)?RoaringTreemap\)", origin(fn_, _M._split_top(b.args)[0]))), name="index.alive.clone()")
+    NEW = call(r"RoaringTreemap>::new\(", name="RoaringTreemap::new()")
+    RET = stmt(r"^_0 = (std::option::)?Option::<(roaring::)?RoaringTreemap>::Some\(", name="return Some(bitmap)")
+    nv = lambda ev, v: fc.never(ev, frm=A(v), need_witness_without=False)
+    out = []
+    # And: only intersections; every further sub-result is intersected before the result is returned
+    out += [nv(OR, "AndFilter"), nv(SUB, "AndFilter"), nv(XOR, "AndFilter"), nv(NEW, "AndFilter")]
+    out.append(fc.follows(Arm(r"^discr\(try\(call (hnsw_backend::)?compile_filter_to_bitmap\)\)$", {"0"}, name="sub-filter compiled (loop of the And arm)", nth=1), AND, exit="any", exit_ev=RET))
+    # Or / InMatch: only unions, starting from the empty set
+    for v in ("OrFilter", "InMatch"):
+        out += [nv(AND, v), nv(SUB, v), nv(XOR, v), nv(ALIVE, v)]
+    out.append(fc.follows(Arm(r"^discr\(try\(call (hnsw_backend::)?compile_filter_to_bitmap\)\)$", {"0"}, name="sub-filter compiled (Or arm)", nth=2), OR, exit="any", exit_ev=RET))
+    # Not: alive minus the sub-result
+    out += [nv(AND, "NotFilter"), nv(OR, "NotFilter"), nv(XOR, "NotFilter"), nv(NEW, "NotFilter")]
+    out.append(fc.follows(Arm(r"^discr\(try\(call (hnsw_backend::)?compile_filter_to_bitmap\)\)$", {"0"}, name="sub-filter compiled (Not arm)", nth=3), SUB, exit="any", exit_ev=RET))
+    out.append(fc.follows(Arm(r"^discr\(try\(call (hnsw_backend::)?compile_filter_to_bitmap\)\)$", {"0"}, name="sub-filter compiled (Not arm)", nth=3), ALIVE, exit="any", exit_ev=RET))
+    # the subtraction's left side is the alive clone
+    for b in fn.blocks.values():
+        if not b.cleanup and SUB.match_block(fn, b):
+            lhs = origin(fn, _M._split_top(b.args)[0])
+            ok = "RoaringTreemap as Clone>::clone" in lhs
+            out.append(Result("holds" if ok else "violated", "Not: `%s -= sub`" % lhs[:70], sample={"fn": f, "kind": "PROVENANCE", "lhs": lhs[:100]}))
+    return out
+
+
+MOS.append(MO("O11.7/composition", "compile_filter_to_bitmap: And arms only intersect (&=), Or / InMatch arms only unite (|=) from the empty set, Not subtracts the sub-result from a clone of the alive set; every compiled sub-filter is combined before the result is returned",
+              composition, functions=[("hnsw_backend.rs", "compile_filter_to_bitmap")]))
 MOS.append(MO("O11.4/symmetry", "MetadataInvertedIndex: for every index structure and value class (non-numeric, numeric NaN, numeric non-NaN) remove_doc un-indexes exactly where insert_doc indexes",
               symmetry, functions=[("hnsw_backend.rs", "insert_doc"), ("hnsw_backend.rs", "remove_doc")]))
 
